@@ -30,7 +30,19 @@ from exabgp.configuration.schema import (
     ActionKey,
 )
 
-from exabgp.configuration.static.parser import prefix
+from exabgp.configuration.static.parser import (
+    aigp,
+    atomic_aggregate,
+    attribute,
+    cluster_list,
+    name as named,
+    originator_id,
+    prefix,
+    split,
+    watchdog,
+    withdraw,
+)
+from exabgp.configuration.validator import LegacyParserValidator
 
 # Import and re-export _build_route for backward compatibility
 from exabgp.configuration.announce.route_builder import _build_route  # noqa: F401
@@ -86,6 +98,7 @@ class AnnounceIP(ParseAnnounce):
                 target=ActionTarget.ATTRIBUTE,
                 operation=ActionOperation.ADD,
                 key=ActionKey.NAME,
+                validator=LegacyParserValidator(parser_func=atomic_aggregate, name='atomic-aggregate'),
             ),
             'aggregator': Leaf(
                 type=ValueType.AGGREGATOR,
@@ -100,6 +113,7 @@ class AnnounceIP(ParseAnnounce):
                 target=ActionTarget.ATTRIBUTE,
                 operation=ActionOperation.ADD,
                 key=ActionKey.NAME,
+                validator=LegacyParserValidator(parser_func=originator_id, name='originator-id'),
             ),
             'cluster-list': LeafList(
                 type=ValueType.IP_ADDRESS,
@@ -107,6 +121,7 @@ class AnnounceIP(ParseAnnounce):
                 target=ActionTarget.ATTRIBUTE,
                 operation=ActionOperation.ADD,
                 key=ActionKey.NAME,
+                validator=LegacyParserValidator(parser_func=cluster_list, name='cluster-list'),
             ),
             'community': LeafList(
                 type=ValueType.COMMUNITY,
@@ -135,6 +150,7 @@ class AnnounceIP(ParseAnnounce):
                 target=ActionTarget.ATTRIBUTE,
                 operation=ActionOperation.ADD,
                 key=ActionKey.NAME,
+                validator=LegacyParserValidator(parser_func=aigp, name='aigp'),
             ),
             'attribute': Leaf(
                 type=ValueType.HEX_STRING,
@@ -142,6 +158,7 @@ class AnnounceIP(ParseAnnounce):
                 target=ActionTarget.ATTRIBUTE,
                 operation=ActionOperation.ADD,
                 key=ActionKey.NAME,
+                validator=LegacyParserValidator(parser_func=attribute, name='attribute'),
             ),
             'name': Leaf(
                 type=ValueType.STRING,
@@ -149,6 +166,7 @@ class AnnounceIP(ParseAnnounce):
                 target=ActionTarget.ATTRIBUTE,
                 operation=ActionOperation.ADD,
                 key=ActionKey.NAME,
+                validator=LegacyParserValidator(parser_func=named, name='name'),
             ),
             'split': Leaf(
                 type=ValueType.INTEGER,
@@ -156,6 +174,7 @@ class AnnounceIP(ParseAnnounce):
                 target=ActionTarget.ATTRIBUTE,
                 operation=ActionOperation.ADD,
                 key=ActionKey.NAME,
+                validator=LegacyParserValidator(parser_func=split, name='split'),
             ),
             'watchdog': Leaf(
                 type=ValueType.STRING,
@@ -163,6 +182,7 @@ class AnnounceIP(ParseAnnounce):
                 target=ActionTarget.ATTRIBUTE,
                 operation=ActionOperation.ADD,
                 key=ActionKey.NAME,
+                validator=LegacyParserValidator(parser_func=watchdog, name='watchdog'),
             ),
             'withdraw': Leaf(
                 type=ValueType.BOOLEAN,
@@ -170,6 +190,7 @@ class AnnounceIP(ParseAnnounce):
                 target=ActionTarget.ATTRIBUTE,
                 operation=ActionOperation.ADD,
                 key=ActionKey.NAME,
+                validator=LegacyParserValidator(parser_func=withdraw, name='withdraw'),
             ),
         },
     )
